@@ -507,7 +507,15 @@ qb_vsnprintf_serialize(char *serialize, size_t max_len,
 	 * argument set to QB_TRUE, so callers can honor extended setting)
 	 */
 	if ((qb_xc = strchr(serialize, QB_XC)) != NULL) {
-		*qb_xc = *(qb_xc + 1)? '|' : '\0';
+		if (*(qb_xc + 1)) {
+			*qb_xc = '|';
+		} else {
+			/* stripped: the stored format is one byte shorter,
+			 * and the arguments follow its new end (that is
+			 * where the decoder looks for them) */
+			*qb_xc = '\0';
+			location--;
+		}
 	}
 
 	format = (char *)fmt;
